@@ -70,6 +70,7 @@ CONC_ASSUME = ["interleavings: sequentially consistent, context switches at sync
 PROPS = {
     "C12": {
         "level": "other",
+        "e2e_confirm": "H_C12_nativeEndToEnd",
         "harnesses": [
             H("H_C12_localMin", "all 12 full-range integer kinds x both directions, threshold k any value of the kind (64-bit symbolic), recording = pruned recording of the real generator on any 2/3 symbolic words, with the shrinker's shape invariant (an overflow draw keeps its all-ones data word); hypothesis: no block can be lowered by one and still fail", reach=["local-minimum", "overflow", "plain"], quick=Q, thorough=T),
             H("H_C12_monotone", "all 12 kinds, any recording, bias word / data word lowered to any smaller value (64-bit symbolic)", reach=["compared"], quick=Q, thorough=T),
@@ -81,6 +82,7 @@ PROPS = {
             H("H_C12_offers", "real shrink() on a 3-word recording in 2 standalone groups, words from 10 representatives (0,1,5,6,7,1000,2^53-1,2^63,2^64-2,2^64-1), property reproduced by no candidate; then a second shrink() of a neighbouring test case in the same process", reach=["first-run", "second-run"], quick=Q, thorough=T),
             H("H_C12_slice", "SliceOf(Uint8()) recorded from any 7 (quick) / 10 (thorough) symbolic words, up to 2/3 elements, k in 0..2/3", reach=["local-minimum"], quick=Q, thorough=T),
             H("H_C12_string", "StringOf(RuneFrom(a..d)) recorded from any 7/10 symbolic words, up to 2/3 runes", reach=["local-minimum"], quick=Q, thorough=T),
+            H("H_C12_nativeEndToEnd", "native-only end-to-end confirmation of a failed lemma (threshold properties over Int64/Uint64/Int8, 3 seeds, Fatalf and value-naming panic, collections with k up to 32), no-op under gosym", quick=Q, thorough=T, nodiff=True),
             H("H_C12_sliceSigned", "SliceOf(Int16()) recorded from any 9 symbolic words, up to 2 elements", reach=["local-minimum"], thorough_only=True, thorough=T),
             H("H_C12_map", "MapOf(Uint8(), Bool()) recorded from any 9 symbolic words, up to 2 entries", reach=["local-minimum"], thorough_only=True, thorough=T),
         ],
